@@ -524,66 +524,90 @@ func separatorBeforeRequestPath(p *Prog, r *Report) {
 			}
 		},
 		Branch: func(x *Explorer, st *State, cond ssa.Value, taken bool, from *ssa.BasicBlock) {
-			pol, v := stripNot(cond)
-			truth := taken == pol
-			if ph, ok := v.(*ssa.Phi); ok {
-				// hasLeadingSlash := len(path) > 0 && path[0] == '/'
-				for _, e := range ph.Edges {
-					if bo, ok := e.(*ssa.BinOp); ok && isFirstByteSlash(bo) {
-						if truth {
-							st.Set(bLead)
+			var learn func(cond ssa.Value, taken bool, d int)
+			learn = func(cond ssa.Value, taken bool, d int) {
+				pol, v := stripNot(cond)
+				truth := taken == pol
+				if d > 6 {
+					return
+				}
+				if ph, ok := v.(*ssa.Phi); ok {
+					// hasLeadingSlash := len(path) > 0 && path[0] == '/'
+					for _, e := range ph.Edges {
+						if bo, ok := e.(*ssa.BinOp); ok && isFirstByteSlash(bo) {
+							if truth {
+								st.Set(bLead)
+							} else {
+								st.Clear(bLead)
+							}
+							return
+						}
+					}
+					// a conjunction / disjunction kept in a variable: what this path put into it
+					if k, ok := st.ali[x.Canon(ph)]; ok {
+						if nv := x.byKey[k]; nv != nil && nv != ssa.Value(ph) {
+							if _, isC := nv.(*ssa.Const); !isC {
+								learn(nv, truth, d+1)
+							}
+						}
+					}
+					return
+				}
+				bo, ok := v.(*ssa.BinOp)
+				if !ok {
+					return
+				}
+				if isFirstByteSlash(bo) {
+					if truth {
+						st.Set(bLead)
+					}
+					return
+				}
+				if isLenOfPath(bo.X) {
+					if k, isK := constInt(bo.Y); isK {
+						zero := false
+						switch bo.Op {
+						case token.GTR:
+							zero = !truth && k == 0
+						case token.GEQ:
+							zero = !truth && k == 1
+						case token.LSS:
+							zero = truth && k == 1
+						case token.LEQ:
+							zero = truth && k == 0
+						case token.EQL:
+							zero = truth && k == 0
+						case token.NEQ:
+							zero = !truth && k == 0
+						}
+						if zero {
+							st.Set(bEmpty)
+						}
+					}
+					return
+				}
+				// h.root != "" / root == ""
+				if cs, ok := bo.Y.(*ssa.Const); ok && cs.Value != nil && cs.Value.Kind() == constant.String && constant.StringVal(cs.Value) == "" {
+					if _, fv := loadedField(bo.X); fv != nil && fv.Name() == "root" {
+						if (bo.Op == token.EQL) == truth {
+							st.Set(bNoRoot)
 						} else {
-							st.Clear(bLead)
+							st.Clear(bNoRoot)
 						}
 					}
 				}
-				return
 			}
-			bo, ok := v.(*ssa.BinOp)
-			if !ok {
-				return
-			}
-			if isFirstByteSlash(bo) {
-				if truth {
-					st.Set(bLead)
-				}
-				return
-			}
-			if isLenOfPath(bo.X) {
-				if k, isK := constInt(bo.Y); isK {
-					zero := false
-					switch bo.Op {
-					case token.GTR:
-						zero = !truth && k == 0
-					case token.GEQ:
-						zero = !truth && k == 1
-					case token.LSS:
-						zero = truth && k == 1
-					case token.LEQ:
-						zero = truth && k == 0
-					case token.EQL:
-						zero = truth && k == 0
-					case token.NEQ:
-						zero = !truth && k == 0
-					}
-					if zero {
-						st.Set(bEmpty)
-					}
-				}
-				return
-			}
-			// h.root != "" / root == ""
-			if cs, ok := bo.Y.(*ssa.Const); ok && cs.Value != nil && cs.Value.Kind() == constant.String && constant.StringVal(cs.Value) == "" {
-				if _, fv := loadedField(bo.X); fv != nil && fv.Name() == "root" {
-					if (bo.Op == token.EQL) == truth {
-						st.Set(bNoRoot)
-					} else {
-						st.Clear(bNoRoot)
-					}
-				}
-			}
+			learn(cond, taken, 0)
 		},
 	})
+	x.AliasPhis = map[*ssa.Phi]bool{}
+	for _, b := range fn.Blocks {
+		for _, in := range b.Instrs {
+			if ph, ok := in.(*ssa.Phi); ok && isBool(ph.Type()) {
+				x.AliasPhis[ph] = true
+			}
+		}
+	}
 	x.TrackAll = true
 	x.MaxStates = 500000
 	x.Run(nil)
